@@ -171,14 +171,15 @@ def run(ctx, cell):
     key = "C05:" + name
     sel = cell["sel"]
     sel2 = ctx.int("sel2", 0, g.pos)
-    kind = ctx.int("kind", 0, 5)
-    kind2 = ctx.int("kind2", 0, 5)
+    kind = ctx.int("kind", 0, 6)
+    kind2 = ctx.int("kind2", 0, 6)
     quick = cell.get("tier") == "quick"
     # return / break / continue inside a finally part: its own effect is unspecified, but it must
     # never swallow an error that is in flight (see tdsl.FinCtl)
     if quick:
         ctx.assume(b_or(kind2 == 0, kind2 == 3))
-        ctx.assume(kind != 2)          # kinds 1 and 2 are both runtime 'ERROR's; the thorough tier keeps both
+        ctx.assume(kind != 2)
+        ctx.assume(kind != 1)          # (kinds 1, 2 and 6 are all runtime 'ERROR's; quick keeps the host-error one)          # kinds 1 and 2 are both runtime 'ERROR's; the thorough tier keeps both
     evk = EVKINDS[ctx.choice("evk", 3 if quick else len(EVKINDS))]
     ev = mkev(ctx, "ev", evk)
     ev2 = mkev(ctx, "ev2", "int")
